@@ -11,6 +11,7 @@ import (
 	"io"
 	"sort"
 	"strings"
+	"sync"
 	"sync/atomic"
 	"time"
 
@@ -264,8 +265,10 @@ func (w *World) dump() *Dump {
 				Errored: t.Errored, Canceled: t.Canceled, Skipped: t.Skipped, ExitCode: t.ExitCode, Error: t.Error,
 				Deps: t.DependsOn, Script: t.Script, Allow: t.AllowFailure, Env: t.Env})
 		}
-		if g := w.graphs[dj.Idx]; g != nil {
-			dj.Stages = g.snapshot()
+		for _, g := range w.pollers {
+			if g.job == dj.Idx {
+				dj.Stages = g.snapshot()
+			}
 		}
 		d.Jobs = append(d.Jobs, dj)
 	}
@@ -291,6 +294,8 @@ func (w *World) dump() *Dump {
 // the poll loop of taskctl.Scheduler, modelled as blocking (see DESIGN.md 2.2)
 
 type graphReg struct {
+	sched     *taskctl.Scheduler
+	job       int
 	g         *scheduler.ExecutionGraph
 	cancelled *int32
 	names     []string
@@ -323,22 +328,27 @@ func idleHook(s *taskctl.Scheduler, g *scheduler.ExecutionGraph, cancelled *int3
 	if vs == nil || w == nil {
 		return FreePause, true
 	}
-	reg := w.pollers[s]
+	var reg *graphReg
+	for _, r := range w.pollers {
+		if r.sched == s {
+			reg = r
+		}
+	}
 	if reg == nil {
-		reg = &graphReg{g: g, cancelled: cancelled}
-		for n := range g.Nodes() {
+		reg = &graphReg{g: g, cancelled: cancelled, sched: s}
+		nodes := g.Nodes()
+		for n := range nodes {
 			reg.names = append(reg.names, n)
 		}
 		sort.Strings(reg.names)
-		w.pollers[s] = reg
-		for _, st := range g.Nodes() {
-			if id, ok := st.Variables.Get(taskctl.JobIDVariableName).(string); ok {
+		if len(reg.names) > 0 {
+			if id, ok := nodes[reg.names[0]].Variables.Get(taskctl.JobIDVariableName).(string); ok {
 				if u, err := uuid.FromString(id); err == nil {
-					w.graphs[jobIndex(u)] = reg
+					reg.job = jobIndex(u)
 				}
 			}
-			break
 		}
+		w.pollers = append(w.pollers, reg)
 	}
 	cur := reg.snapshot()
 	if reg.have && cur == reg.snap {
@@ -536,8 +546,7 @@ type World struct {
 	Log          []Event
 	Mocks        []*MockRunner
 	Store        *recStore
-	pollers      map[*taskctl.Scheduler]*graphReg
-	graphs       map[int]*graphReg
+	pollers []*graphReg // registered poll loops (a slice, not a map: it is touched by managed threads and by the explorer)
 	Ctx          context.Context
 	CancelCtx    context.CancelFunc
 	nDrivers     int
@@ -549,6 +558,7 @@ type World struct {
 	ForcedCancel context.CancelFunc
 	forcedDone   bool
 	initErr      error
+	pub          sync.Mutex // real lock: orders the construction of the runner before every driver (race build)
 }
 
 func (w *World) log(e Event) {
@@ -557,7 +567,14 @@ func (w *World) log(e Event) {
 	if t := w.S.Me(); t != nil {
 		e.Thread = t.Name
 	}
-	w.S.TouchTrace(vsched.HashString(e.Kind + "|" + e.Task + "|" + e.Detail + "|" + e.Err + fmt.Sprint(e.Job, e.Inst)))
+	switch e.Kind {
+	case EvApiCall, EvApiRet, EvNewRunner, EvFinish, EvUnlock, EvSave:
+		// logged inside a critical section of the runner lock or directly after its release without
+		// a scheduling point in between: their position in the log is determined by the order of
+		// critical sections, which the lock's fingerprint already captures
+	default:
+		w.S.TouchTrace(vsched.HashString(e.Kind + "|" + e.Task + "|" + e.Detail + "|" + e.Err + fmt.Sprint(e.Job, e.Inst)))
+	}
 	w.Log = append(w.Log, e)
 }
 
@@ -565,7 +582,7 @@ func (w *World) log(e Event) {
 // on a managed thread ("init") which is run to completion before NewWorld returns.
 func NewWorld(opts WorldOpts) *World {
 	uuid.DefaultGenerator.(*seqGen).reset()
-	w := &World{Opts: opts, pollers: map[*taskctl.Scheduler]*graphReg{}, graphs: map[int]*graphReg{}}
+	w := &World{Opts: opts}
 	w.S = vsched.New()
 	curWorld = w
 	w.Ctx, w.CancelCtx = context.WithCancel(context.Background())
@@ -587,6 +604,8 @@ func NewWorld(opts WorldOpts) *World {
 		}
 		r.ShutdownPollInterval = 3 * time.Second
 		w.R = r
+		w.pub.Lock()
+		w.pub.Unlock()
 	})
 	// run init to completion (it only spawns the persist loop)
 	for {
@@ -614,7 +633,12 @@ func NewWorld(opts WorldOpts) *World {
 			}
 		}
 	}
-	w.lastDump = w.dump()
+	if vsched.RaceBuild {
+		// no unsynchronised read of the runner state from the explorer in the race build
+		w.lastDump = &Dump{WaitLists: map[string][]int{}, ByPipeline: map[string][]int{}, Defs: opts.Defs[0]}
+	} else {
+		w.lastDump = w.dump()
+	}
 	return w
 }
 
@@ -709,7 +733,6 @@ func (w *World) Do(o Op) {
 			vs.ParkFunc(func() bool { return w.Accepted >= o.WaitAccepted }, "wait-accepted")
 		}
 	}
-	vsched.Point("api." + o.Kind)
 	w.log(Event{Kind: EvApiCall, Detail: o.String(), Job: o.Job})
 	switch o.Kind {
 	case "S", "Sbad":
@@ -770,6 +793,8 @@ func (w *World) SpawnDriver(ops ...Op) *vsched.Thread {
 	w.nDrivers++
 	name := fmt.Sprintf("drv%d", w.nDrivers)
 	return w.S.Spawn(name, "driver", func() {
+		w.pub.Lock()
+		w.pub.Unlock()
 		for _, o := range ops {
 			w.Do(o)
 		}
